@@ -350,7 +350,8 @@ def vkey(tag, bad, c, add_rev, got, shp):
     if bad == ["slice-coords"]:
         return f"slice-coords:{c['impl']}"
     if "slice-raised" in bad:
-        return f"slice:raised:E{got[3].code}:{c['impl']}:{'offset' if c['off'] else 'nooffset'}"
+        has_off = bool(c["off"]) or any(op[0] == "copy" for op in c["ops"])   # copy() sets an annotation offset
+        return f"slice:raised:E{got[3].code}:{c['impl']}:{'offset' if has_off else 'nooffset'}"
     if tag.startswith("add"):
         return f"{tag}:{'rev' if add_rev else 'fwd'}"
     return f"{tag}:{'+'.join(bad)}:{shp}"
@@ -693,9 +694,9 @@ def run(tier: str, seed: int) -> int:
         "alignment-level projection is compared with the position-set oracle only (not modelled in Coq)",
     ])
     rep.assumptions += [
-        "theorems: well-formed view with |step| = 1, annotation offset >= 0, feature spans sorted, disjoint, non-empty, "
-        "at absolute coordinates >= offset; strided views, windows given explicitly and add_feature are covered by the "
-        "correspondence and the oracle only"]
+        "theorems: well-formed view with |step| = 1 (every history of unit-step slices, rc and copy gives one), annotation "
+        "offset >= 0, feature spans sorted, disjoint, non-empty at absolute coordinates >= 0, query window 0 <= s < e <= len(view); "
+        "the db side (sqlite WHERE) enters through the two coordinate clauses proved equivalent to interval overlap / containment"]
     cases = build_cases(tier, seed)
     stats, dis, impl = evaluate(rep, cases, bool(pr["problems"]))
     rng_a = random.Random(seed * 7907 + 41)
@@ -712,10 +713,16 @@ def run(tier: str, seed: int) -> int:
              "is returned, its slice is non-empty and equals the position-set oracle",
         samples=[dict(case=sample)],
         input_distribution=dict(cases=len(cases), blocks=dist),
-        partial=["alignment-level projection (get_projected_feature, features through gapped rows): oracle comparison only",
-                 "strided views (|step| > 1), explicit query windows beyond the full view, add_feature: correspondence + oracle",
-                 "feature_slice theorem assumes no feature span ends exactly at the view start (pinned code raises there: "
-                 "see make_feature_raises_refuted)"],
+        partial=["alignment-level features and get_projected_feature (old-style Alignment; this tree has no new-style Alignment): "
+                 "compared with the position-set oracle only, no Coq model",
+                 "strided views (|step| > 1) and negative / swapped / out-of-range query windows: model-vs-implementation "
+                 "correspondence, slice oracle only (the theorems assume |step| = 1 and a proper window)",
+                 "parent coordinates of feature.get_slice(): proved for the repaired variant when the one-span feature lies "
+                 "inside the view (slice_coords_repaired), pinned defect by witness; partly-inside features by correspondence + oracle",
+                 "add_feature through a view: proved end to end for the repaired variant on the view it is added to "
+                 "(add_feature_end_to_end); what the root / other views then return follows from feature_slice_spec for the "
+                 "stored record, and is additionally covered by correspondence + oracle",
+                 "degap, deepcopy, rename, features of new-style SequenceCollection: not covered"],
         model_impl_disagreements=len(dis), spec_violations=stats["violations"], exhaustive=False,
         model_variant=stats["model_variant"],
     )
